@@ -1,7 +1,14 @@
 mod arenasim;
 mod common;
 mod exact;
+mod gen;
+mod lit;
+mod logprobe;
+mod lpseam;
+mod model;
+mod oracle;
 mod prng;
+mod pwlsim;
 mod report;
 
 use std::process::ExitCode;
@@ -15,6 +22,7 @@ fn usage() -> ExitCode {
 
 fn main() -> ExitCode {
     common::install_panic_hook();
+    logprobe::install();
     let args: Vec<String> = std::env::args().collect();
     if args.len() < 2 {
         return usage();
